@@ -16,9 +16,10 @@ Checked: bitwise equality (sha1 of bytes) of all results and all parameters of r
 parameters of every live object before/after each read-only operation; numpy / `random` states
 before/after each library operation; every seed-probe sample (k=0, >= 32 fair bits) of run 3
 differs from run 1.  The Lean model (driver op `c14.run`, token semantics) predicts for every
-operation the ordered calls to torch's random functions with element counts, whether torch's
-generator advances, which objects are written, the result kind, and the equality pattern of
-results / parameters; these predictions are compared with what the recorders observe.
+operation the calls to torch's random functions with element counts (only the element TOTAL per operation is
+compared with what the recorders observe), whether torch's generator advances, which objects are written, the
+result kind (none / value / raised; exception classes are counted only), and the equality pattern of
+results / parameters.
 """
 import json
 import math
@@ -83,7 +84,12 @@ RULE = ("case = one history: [different per-run prefix: foreign numpy/random see
         "array / 0-d tensor, every integer option (seed over the whole accepted range, num_visible/num_hidden/num_aux, k, num_samples, num_chains, burn_in, "
         "steps, epochs, pos/neg_batch_size, starting_epoch, period, size, num) as Python int / numpy.int64,int32,intp,uint8,(uint64) / 0-d integer array / "
         "0-d integer tensor (only the forms the clean tree accepts for that option), by keyword or as a random positional prefix of the documented order; "
-        "the objects are rebuilt in the runner process from two per-operation seeds (fseed, iseed) stored in the case, identically in all runs and in a replay")
+        "the objects are rebuilt in the runner process from two per-operation seeds (fseed, iseed) stored in the case, identically in all runs and in a replay.  "
+        "CHAIN BLOCK (every generated history, before the final probes): [set_random_seed(s), sample / Observable.sample(k, num, initial_state=X)] four times with the "
+        "same s on the same unchanged object, X = A, B (A with one bit flipped), A, A with overwrite=True; k = history index mod 3 (k = 0 returns the start chains "
+        "themselves): calls 1 and 3 are the same operation at the same stream position (must be bit-equal), call 2 differs only in the CONTENT of initial_state.  "
+        "fit: data as numpy.ndarray on 30 %, k = 0 on 10 %.  FORWARDED API: the public methods of BinaryRBM / PurificationRBM called on the state (NeuralStateBase.__getattr__): evaluators as eval fwd_<name>, "
+        "state.gibbs_steps as batchGradient:fwd.  ENVIRONMENTS: corpus cases are re-executed with the three runner processes INSIDE each process-global environment")
 
 SEED_LO, SEED_HI = -2 ** 63, 2 ** 64  # torch.manual_seed accepts LO <= s < HI (established on the clean tree, re-measured below)
 SEED_SPECIALS = [0, 1, 2 ** 31 - 1, 2 ** 31, 2 ** 32 - 1, 2 ** 32, 2 ** 40, 2 ** 63 - 1, 2 ** 63, 2 ** 64 - 1, -1, -2 ** 31, -2 ** 63]
@@ -232,7 +238,19 @@ API_OPS = {
     "unitaries.rotate_psi": [("rotate", "rotate_psi")], "unitaries.rotate_rho": [("rotate", "rotate_rho")],
     "unitaries.rotate_psi_inner_prod": [("rotate", "inner_prod")], "unitaries.rotate_rho_probs": [("rotate", "rho_probs")],
 }
+# the anchored RBM classes' public methods, reachable on a state through `NeuralStateBase.__getattr__` (introspected as "rbm.<name>")
+_FWD_EVAL = ["effective_energy", "effective_energy_gradient", "partition", "prob_h_given_v", "prob_v_given_h", "prob_a_given_v",
+             "prob_v_given_ha", "mixing_term", "gamma", "gamma_grad"]
+API_OPS.update({f"rbm.{n}": [("eval", "fwd_" + n)] for n in _FWD_EVAL})
+API_OPS["rbm.gibbs_steps"] = [("batchGradient", "fwd")]
+_ONE_STEP = ("one half-step of the Gibbs chain; public only through attribute forwarding; its only caller in the library is gibbs_steps, which IS "
+             "executed (through sample / statistics / fit and directly as the forwarded state.gibbs_steps); the direct call has no operation of its "
+             "own in the frame model (scope note in claims.d/C14.json)")
 API_EXCLUDED = {
+    "rbm.initialize_parameters": "WRITES and DRAWS: re-initialises ONE network; the public state-level call is reinitialize_parameters (op `reinit`, all "
+                                 "networks), which calls it for every network; the forwarded state.initialize_parameters() (rbm_am only) has no operation "
+                                 "of its own in the frame model (scope note in claims.d/C14.json) — listed so that it is visibly NOT read-only",
+    "rbm.sample_h_given_v": _ONE_STEP, "rbm.sample_v_given_h": _ONE_STEP, "rbm.sample_a_given_v": _ONE_STEP, "rbm.sample_v_given_ha": _ONE_STEP,
     "state.autoload": "static constructor: builds a NEW object and loads into it (= construct + load; C11 examines it); not a read-only operation",
     "observables.to_01": "pure conversion of a tensor, takes no model", "observables.to_pm1": "pure conversion of a tensor, takes no model",
     "unitaries.create_dict": "builds a dictionary, takes no model",
@@ -240,6 +258,8 @@ API_EXCLUDED = {
 
 
 def op_class(op):
+    if op["t"] == "batchGradient":
+        return (op["t"], "fwd" if op.get("fwd") else None)
     return (op["t"], op.get("what") if op["t"] in ("eval", "metric", "rotate", "gradient") else None)
 
 
@@ -261,8 +281,48 @@ THM_RO = "C14_read_only_step / C14_read_only"
 
 
 # ------------------------------------------------------------------ running the implementation
-def run_impl(ops, timeout=600):
-    """execute one history in a fresh interpreter; returns the runner's records"""
+_PRE = {}      # (json of the op list, environment name) -> Future of run_impl: runner processes started ahead of time
+_POOL = [None]
+
+
+def _key(ops, envname):
+    return (json.dumps(ops, sort_keys=True), envname or None)
+
+
+def prefetch_corpus(case):
+    """The framework replays every stored corpus case first in the ordinary environment and then once under every process-global
+    environment of common.ENVS, one `replay` call after the other.  Each is three fresh interpreters; started one case at a time they
+    would dominate the quick tier.  On the first replay of a stored corpus case ALL runner processes of all stored cases under all
+    environments are started at once (bounded pool); `run_impl` then picks its result up.  Purely a scheduling device: the same op
+    lists are executed in the same kind of process, and anything not prefetched is executed on demand."""
+    if _POOL[0] is not None:
+        return
+    cdir = os.path.join(VERIF, "corpus", "C14")
+    stored = []
+    if os.path.isdir(cdir):
+        for f in sorted(os.listdir(cdir)):
+            if f.endswith(".json"):
+                stored.append(json.load(open(os.path.join(cdir, f)))["case"])
+    if not any(c.get("runs") == case["runs"] for c in stored):
+        return
+    from .common import ENVS
+    _POOL[0] = ThreadPoolExecutor(max_workers=max(1, min(8, (os.cpu_count() or 2) // 2)))
+    for envname in [None] + list(ENVS):
+        for c in stored:
+            for ops in c["runs"]:
+                if _key(ops, envname) not in _PRE:
+                    _PRE[_key(ops, envname)] = _POOL[0].submit(_run_impl, ops, envname)
+
+
+def run_impl(ops, envname=None, timeout=600):
+    """execute one history in a fresh interpreter (inside the named process-global environment, if any); returns the runner's records"""
+    f = _PRE.pop(_key(ops, envname), None)
+    if f is not None:
+        return f.result()
+    return _run_impl(ops, envname, timeout)
+
+
+def _run_impl(ops, envname=None, timeout=600):
     wd = tempfile.mkdtemp(prefix="c14_")
     try:
         env = dict(os.environ)
@@ -275,7 +335,7 @@ def run_impl(ops, timeout=600):
         env["MKL_CBWR"] = "AUTO"  # MKL's documented run-to-run reproducibility mode
         env.pop("PYTHONHASHSEED", None)
         p = subprocess.run([sys.executable, "-W", "ignore", "-m", "harness.c14_runner"], cwd=VERIF, env=env,
-                           input=json.dumps({"ops": ops, "workdir": wd}), capture_output=True, text=True, timeout=timeout)
+                           input=json.dumps({"ops": ops, "workdir": wd, "env": envname or None}), capture_output=True, text=True, timeout=timeout)
         for line in p.stdout.splitlines():
             if line.startswith("C14RESULT "):
                 return json.loads(line[len("C14RESULT "):])
@@ -303,15 +363,20 @@ def model_op(op, kinds):
         return {k: v for k, v in op.items() if k not in ("fseed", "iseed")}
     if t == "construct":
         return {"t": t, "kind": op["kind"], "n": op["n"], "h": op["h"], "a": op.get("a")}
+    # the CONTENT of `initial_state` (and `overwrite`) is part of the operation: the value returned is a function of the start
+    # chains (k = 0 returns their clone), so equal (k, num, row count) with different rows must not be the same model operation
     if t == "sample":
         return {"t": t, "slot": op["slot"], "k": op["k"], "num": op["num"],
-                "init": None if op.get("init") is None else len(op["init"])}
+                "init": None if op.get("init") is None else len(op["init"]),
+                "arg": _arg({"init": op.get("init"), "ow": bool(op.get("overwrite"))})}
     if t == "obsSample":
         return {"t": t, "slot": op["slot"], "k": op["k"], "num": op["num"],
-                "init": None if op.get("init") is None else len(op["init"]), "arg": _arg({"obs": op["obs"], "ow": op.get("overwrite")})}
+                "init": None if op.get("init") is None else len(op["init"]),
+                "arg": _arg({"obs": op["obs"], "ow": op.get("overwrite"), "init": op.get("init")})}
     if t == "statistics":
         return {"t": t, "slot": op["slot"], "ns": op["ns"], "nc": op["nc"], "bi": op["bi"], "steps": op["steps"],
-                "init": None if op.get("init") is None else len(op["init"]), "arg": _arg({"obs": op["obs"], "ow": op.get("overwrite")})}
+                "init": None if op.get("init") is None else len(op["init"]),
+                "arg": _arg({"obs": op["obs"], "ow": op.get("overwrite"), "init": op.get("init")})}
     if t == "fit":
         bases = op.get("bases")
         M = None if bases is None else sum(1 for b in bases if set(b) <= {"Z"})
@@ -383,6 +448,8 @@ def whats_of(kind):
     wf = kind != "dens"
     ev = ["psi", "probability", "normalization", "apply", "sfs", "sys_sfs", "is_denominator", "is_numerator", "is_weight",
           "hilbert_space", "subspace_vector", "compute_normalization"] + (["amplitude", "phase"] if wf else ["rho2", "pi"])
+    ev += ["fwd_" + x for x in (["effective_energy", "effective_energy_gradient", "partition", "prob_h_given_v"]
+                                + (["prob_v_given_h"] if wf else ["prob_a_given_v", "prob_v_given_ha", "mixing_term", "gamma", "gamma_grad"]))]
     gr = ["gradient", "positive_phase", "exact"] + {"pos": ["exact_grads"], "cplx": ["rotated", "am_grads", "ph_grads"],
                                                      "dens": ["rotated", "am_grads", "ph_grads", "pi_grad"]}[kind]
     ro = ["rotate_psi", "inner_prod"] if wf else ["rotate_rho", "rho_probs"]
@@ -392,7 +459,7 @@ def whats_of(kind):
 def all_wants(kind):
     """one request per operation class the API table names, for an object of this kind (save before load)"""
     w = whats_of(kind)
-    return (["sample", "sample:ow", "obsSample", "statistics", "statistics:ow", "fit", "fit:evaluator", "batchGradient", "reinit", "save", "save:md"]
+    return (["sample", "sample:ow", "obsSample", "statistics", "statistics:ow", "fit", "fit:evaluator", "batchGradient", "batchGradient:fwd", "reinit", "save", "save:md"]
             + [f"{t}:{x}" for t in ("eval", "metric", "rotate", "gradient") for x in w[t]])
 
 
@@ -461,6 +528,10 @@ def gen_lib_op(rng, slot, cons, files, want=None):
             op["sched"] = True
         if rng.random() < 0.15:
             op["time"] = True
+        if rng.random() < 0.3:
+            op["np_data"] = True  # data as numpy.ndarray (the documented type)
+        if rng.random() < 0.1:
+            op["k"] = 0           # no Gibbs step: the negative phase is the start chains themselves (no Bernoulli draw)
         return op
     if c < 0.58:
         w = forced or rng.choice(W["eval"])
@@ -469,7 +540,7 @@ def gen_lib_op(rng, slot, cons, files, want=None):
             op["obs"] = one_obs()
         if w == "sys_sfs":
             op["obss"] = rng.choice([["SigmaZ", "SigmaX"], ["Composite", "SigmaY"], ["SWAP"]])
-        if w in ("rho2", "pi", "is_numerator", "is_weight"):
+        if w in ("rho2", "pi", "is_numerator", "is_weight", "fwd_gamma", "fwd_gamma_grad"):
             op["rows2"] = bits_rows(rng, len(op["rows"]), n)
         if w == "pi":
             op["expand"] = rng.random() < 0.5
@@ -511,8 +582,12 @@ def gen_lib_op(rng, slot, cons, files, want=None):
         return op
     if c < 0.89:
         r = rows(2, 4)
-        return {"t": "batchGradient", "slot": slot, "k": rng.randint(1, 3), "rows": r, "neg": rows(1, 4),
-                "bases": some_bases(len(r))}
+        op = {"t": "batchGradient", "slot": slot, "k": rng.randint(1, 3), "rows": r, "neg": rows(1, 4),
+              "bases": some_bases(len(r))}
+        if forced == "fwd" or (forced is None and rng.random() < 0.25):
+            op["fwd"] = True  # state.gibbs_steps(k, chains): the RBM's public method through the state's attribute forwarding (same chains, same draws)
+            op["k"] = rng.randint(0, 3)
+        return op
     if c < 0.93:
         return {"t": "reinit", "slot": slot}
     key = json.dumps([kind, n, cons["h"], cons["a"]])
@@ -549,6 +624,30 @@ def interleave(rng, core, lo=2):
     while k < lo:
         out.insert(rng.randint(0, len(out)), gen_ext(rng))
         k += 1
+    return out
+
+
+def chain_block(rng, slot, n, idx):
+    """the SAME stream position on the SAME unchanged object, three times (re-seeding with one seed; sampling is read-only), with start chains
+    A, B, A of equal shape and different content: results 1 and 3 are the same operation at the same stream position (model-equal, must be
+    bit-equal), result 2 is a DIFFERENT operation although (k, num_samples, row count) agree — the content of `initial_state` is part of the
+    operation (k = 0 returns the clone of the start chains).  Exercises `pattern/results` on what used to alias in the model."""
+    sd = seed_op(rng)
+    rows = rng.randint(1, 4)
+    A = bits_rows(rng, rows, n)
+    B = [list(r) for r in A]
+    i, j = rng.randrange(rows), rng.randrange(n)
+    B[i][j] = 1.0 - B[i][j]
+    k, num = idx % 3, rng.randint(1, 5)  # k = 0: the result IS the start chains; k > 0: a function of them and of the stream
+    cls = rng.choice(["sample", "sample", "obsSample"])
+    out = []
+    for init, ow in ((A, False), (B, False), (A, False), (A, True)):
+        op = {"t": cls, "slot": slot, "k": k, "num": num, "init": [list(r) for r in init]}
+        if cls == "obsSample":
+            op["obs"] = "SigmaZ"
+        if ow:
+            op["overwrite"] = True
+        out += [dict(sd), op]
     return out
 
 
@@ -593,6 +692,7 @@ def gen_history(rng, idx):
         core[at:at] = [seed_op(rng), probe(min(cons), cons[min(cons)]["n"])]
     if idx % 5 == 3:
         core.insert(rng.randint(3, len(core)), {"t": "burn", "m": rng.randint(1, 9)})
+    core += chain_block(rng, min(cons), cons[min(cons)]["n"], idx)
     for slot in sorted(cons):
         core.append(probe(slot, cons[slot]["n"]))
     runs = []
@@ -762,6 +862,8 @@ def check_case(ctx, case, impl):
             ctx.count(f"seed_class={seed_class(o['s'])}/cpu={o['cpu']}" + ("/gpu" if o.get("gpu") else ""))
         if o["t"] == "fit":
             ctx.count("fit_optimizer=" + o["optimizer"])
+            ctx.count("fit_data=" + ("numpy.ndarray" if o.get("np_data") else "torch.Tensor"))
+            ctx.count("fit_k=" + ("0" if o["k"] == 0 else ">=1"))
             ctx.count("fit_negB=" + ("default" if not o["negB"] else ("same" if o["negB"] == o["posB"] else "different")))
     ctx.count("histories")
     for rec in impl[0]["records"]:  # the forms the runner process actually handed over (run 1)
@@ -790,12 +892,20 @@ def check_case(ctx, case, impl):
             if op["t"] == "setSeed":
                 ref = torch_stream(op["s"])
                 unchanged = rec["rng_before"]["torch"] == rec["rng_after"]["torch"]
+                # Values torch.manual_seed refuses are not seeds ("all seeds" = what the seeding call can hand to torch): for them only
+                # "nothing is seeded" is judged; WHICH exception class is raised, and whether cpu=False with such a value raises at all
+                # (an early range check would), is counted, not demanded.
                 if not op["cpu"]:
-                    ok = unchanged and rec["out"]["kind"] == "none" and not rec["seeds"]
-                    what = "set_random_seed(cpu=False) neither touches torch's CPU generator nor raises (any seed, gpu on or off)"
+                    if "refused" in ref:
+                        ok = unchanged and not rec["seeds"]
+                        ctx.count("refused value with cpu=False: " + ("raises " + str(rec["out"].get("error")) if rec["out"]["kind"] == "err" else "accepted silently"))
+                    else:
+                        ok = unchanged and rec["out"]["kind"] == "none" and not rec["seeds"]
+                    what = "set_random_seed(cpu=False) neither touches torch's CPU generator nor (for a value torch accepts) raises (gpu on or off)"
                 elif "refused" in ref:
-                    ok = unchanged and rec["out"]["kind"] == "err" and rec["out"].get("error") == ref["refused"]
-                    what = "set_random_seed(s) with a value torch.manual_seed refuses raises the same error and seeds nothing"
+                    ok = unchanged and rec["out"]["kind"] == "err"
+                    ctx.count(f"refused seed raises {rec['out'].get('error')} (torch itself: {ref['refused']})")
+                    what = "set_random_seed(s) with a value torch.manual_seed refuses raises and seeds nothing"
                 else:
                     ok = rec["out"]["kind"] == "none" and rec["rng_after"]["torch"] == ref["state"]
                     what = "after set_random_seed(s) torch's CPU generator is in exactly the state torch.manual_seed(s) produces"
@@ -808,8 +918,13 @@ def check_case(ctx, case, impl):
                 m = model[r]["trace"][i]
                 mo = m["out"]
                 io = rec["out"]
-                ctx.point("result kind", "aux", [io["kind"], io.get("error")], [mo["kind"], mo.get("error")], ccase, exact=True,
-                          sig=f"outkind/{op['t']}")
+                # raised / not raised only: the exception CLASS of the malformed calls (ZeroDivisionError for pos_batch_size=0, …) is not
+                # something the property constrains — an added argument check with another class is harmless; classes are counted
+                # (a value torch refuses handed over with cpu=False is outside the quantifier: raised-or-not is counted by the oracle above)
+                if not (op["t"] == "setSeed" and not op["cpu"] and not seed_ok(op["s"])):
+                    ctx.point("result kind (none / value / raised)", "aux", io["kind"], mo["kind"], ccase, exact=True, sig=f"outkind/{op['t']}")
+                if io["kind"] == "err" and mo["kind"] == "err":
+                    ctx.count(f"error class {op['t']}: " + ("as modelled" if io.get("error") == mo.get("error") else f"{io.get('error')} (model: {mo.get('error')})"))
                 # WHICH torch function produces the elements (bernoulli / rand_like < p / ...) and in which order the calls of one
                 # operation are made is an implementation detail; the frame model is about HOW MUCH of the global stream an
                 # operation consumes: only the element total per operation is compared (the ordered lists stay in the replay detail)
@@ -985,8 +1100,9 @@ def first_two_run_diff(case, impl):
 def run_cases(ctx, cases):
     jobs = [(ci, r) for ci in range(len(cases)) for r in range(3)]
     workers = max(1, min(8, (os.cpu_count() or 2) // 2))
+    envname = getattr(ctx, "env_name", None)  # the caller's process-global environment is re-created INSIDE the runner processes
     with ThreadPoolExecutor(max_workers=workers) as ex:
-        results = list(ex.map(lambda j: run_impl(cases[j[0]]["runs"][j[1]]), jobs))
+        results = list(ex.map(lambda j: run_impl(cases[j[0]]["runs"][j[1]], envname), jobs))
     for ci, case in enumerate(cases):
         impl = results[3 * ci: 3 * ci + 3]
         # the three processes must have imported the same qucumber source (the tree under test may be edited concurrently)
@@ -997,7 +1113,7 @@ def run_cases(ctx, cases):
                 raise InternalError("the qucumber source tree keeps changing while the check runs")
             ctx.count("source_changed_during_history_reexecuted")
             ctx.note(f"history {case['name']}: the qucumber source tree changed while its three processes ran; re-executed")
-            impl = [run_impl(ops) for ops in case["runs"]]
+            impl = [run_impl(ops, envname) for ops in case["runs"]]
         d = first_two_run_diff(case, impl)
         if d is not None:
             # Confirmation. Both op lists seed numpy / random explicitly, so a dependence of the library on those sources (or
@@ -1005,7 +1121,7 @@ def run_cases(ctx, cases):
             # A difference that does NOT reproduce is run-to-run nondeterminism of the runtime (torch / BLAS kernels), which the
             # PARTIAL claim excludes; it is recorded in the evidence, not reported as a violation of the library.
             with ThreadPoolExecutor(max_workers=2) as ex:
-                again = list(ex.map(lambda r: run_impl(case["runs"][r]), range(2)))
+                again = list(ex.map(lambda r: run_impl(case["runs"][r], envname), range(2)))
             d2 = first_two_run_diff(case, again + [impl[2]])
             ctx.count("two_run_difference_reexecuted")
             if d2 is None:
@@ -1015,6 +1131,9 @@ def run_cases(ctx, cases):
                          "were executed again in fresh processes: run-to-run nondeterminism of the runtime, outside the claim")
             if {x for im in again for x in im["src"]} == {x for x in impl[2]["src"]}:
                 impl = again + [impl[2]]
+        if impl[0].get("env") and impl[0]["env"][0]:
+            e = impl[0]["env"]
+            ctx.count(f"runner processes inside environment {e[0]}: default dtype {e[1]}, grad enabled {e[2]}, cwd changed {e[3]}")
         if impl[0].get("api") is not None:
             ctx.c14_api = impl[0]["api"]
         done = getattr(ctx, "c14_executed", set())
@@ -1048,5 +1167,6 @@ def search(ctx):
 
 
 def replay(ctx, case):
+    prefetch_corpus(case)
     c = {"name": case.get("name", "replay"), "runs": case["runs"], "b": case["b"], "seed_at": case["seed_at"]}
     run_cases(ctx, [c])
